@@ -574,10 +574,16 @@ func (e *Env) sel(x *ESel) *SVal {
 		fa.Imm = v.Imm
 		ft := st.Field(idx).Type()
 		r := g.load(e.stateFor(fa), fa, ft)
-		// heap invariant: every reference stored in the heap existed when it was stored
-		if g.inQuant == 0 && hasRefs(ft) && !isAggregate(ft) {
-			if ver := g.versionOf(e.stateFor(fa), fa, ft); ver != "" {
-				g.addAxiom(g.refFactsVer(e.cur, ver, r))
+		// heap invariants: every reference stored in the heap existed when it was stored, and
+		// stored slices/strings/times satisfy their runtime invariants
+		if g.inQuant == 0 && !isAggregate(ft) {
+			if hasRefs(ft) {
+				if ver := g.versionOf(e.stateFor(fa), fa, ft); ver != "" {
+					g.addAxiom(g.refFactsVer(e.cur, ver, r))
+				}
+			}
+			if ti := g.typeInv(r); ti != "true" {
+				g.addAxiom(ti)
 			}
 		}
 		return r
